@@ -6,11 +6,12 @@ from .chain import Tx, TxIn, TxOut, Block, ZERO32, COINS
 from .gen import rbytes, ChainBuilder, coinbase_tx, std_script, push
 from .ser import hash160
 
-EVENTS = "ANZMSFUDRL"
+EVENTS = "ANZMSFUDRLC"
 # A create addr output   N create address-less outputs   Z zero-value addr output   M tx with many (260/300) outputs
 # S spend most recent unspent addr output   F fan-in: spend every output of the lane's latest multi-output tx
 # U spend an outpoint unknown to the chain   D duplicate: identical copy of the lane's first tx (same txid)
 # R one tx referencing the same outpoint twice   L spender placed BEFORE the creating tx inside the same block
+# C coinbase look-alike fan-in: first input is the null outpoint (0..0, 0xffffffff), further inputs spend real outputs
 
 
 def p2pkh_for(tag: bytes):
@@ -99,6 +100,15 @@ class Lane:
                 return [self._mk([u, TxIn(u.prev_txid, u.prev_index, b"\x51", 0)], [self._addr_out()])]
             spent.add((tgt[0].txid, tgt[1]))
             return [self._mk([TxIn(tgt[0].txid, tgt[1], b"", 0xFFFFFFFF), TxIn(tgt[0].txid, tgt[1], b"\x00", 1)], [self._addr_out()])]
+        if ev == "C":
+            ins = [TxIn(ZERO32, 0xFFFFFFFF, struct.pack("<QI", self.id, self.n), 0xFFFFFFFF)]
+            tgt = self._recent_unspent(spent)
+            if tgt is not None:
+                spent.add((tgt[0].txid, tgt[1]))
+                ins.append(TxIn(tgt[0].txid, tgt[1], b"", 0xFFFFFFFF))
+            else:
+                ins.append(self._unknown_in())
+            return [self._mk(ins, [self._addr_out()])]
         if ev == "L":
             creator = Tx(1, [self._unknown_in()], [self._addr_out(), self._addr_out()], 0)
             spender = Tx(1, [TxIn(creator.txid, 0, b"", 0xFFFFFFFF)], [self._addr_out()], 0)
@@ -179,6 +189,12 @@ def random_history_chain(rng, coin, n_events, n_blocks, addr_pool=None, big_valu
                     outs.append(TxOut(rng.randint(0, 1000), std_script(rng, coin, rng.choice(kinds_no))))
             if r < 0.25 or not cb.spendable:
                 ins = [TxIn(rbytes(rng, 32), rng.randint(0, 2), b"", 0xFFFFFFFF)]
+            elif r < 0.29:
+                # fan-in whose first (or a later) input is the null outpoint
+                txid, idx, _ = cb.spendable.pop(rng.randrange(len(cb.spendable)))
+                ins = [TxIn(ZERO32, 0xFFFFFFFF, rbytes(rng, 4), 0xFFFFFFFF), TxIn(txid, idx, b"", 0xFFFFFFFF)]
+                if rng.random() < 0.3:
+                    ins.reverse()
             elif r < 0.35 and local:
                 t0 = rng.choice(local)
                 ins = [TxIn(t0.txid, rng.randrange(len(t0.outs)), b"", 0xFFFFFFFF)]      # spend inside the creating block
